@@ -42,6 +42,24 @@
 #include "Enum/ECov.hpp"
 #include "Enum/ECalcVario.hpp"
 #include "Enum/ELoadBy.hpp"
+#include "Db/DbLine.hpp"
+#include "Db/DbGraphO.hpp"
+#include "Matrix/NF_Triplet.hpp"
+#include "Matrix/MatrixRectangular.hpp"
+#include "Matrix/MatrixInt.hpp"
+#include "Matrix/MatrixSquareGeneral.hpp"
+#include "Anamorphosis/AnamEmpirical.hpp"
+#include "Anamorphosis/AnamDiscreteDD.hpp"
+#include "Anamorphosis/AnamDiscreteIR.hpp"
+#include "Mesh/MeshETurbo.hpp"
+#include "Mesh/MeshEStandard.hpp"
+#include "LithoRule/Rule.hpp"
+#include "LithoRule/RuleShift.hpp"
+#include "LithoRule/RuleShadow.hpp"
+#include "Faults/Faults.hpp"
+#include "Fractures/FracEnviron.hpp"
+#include "Fractures/FracFamily.hpp"
+#include "Fractures/FracFault.hpp"
 #undef private
 #undef protected
 
@@ -437,12 +455,94 @@ static Cls cls_model() {
   return c;
 }
 
+
+// ------------------------------------------------------------------ classes without a model: printed text as getter
+template <class T> static std::string x_text(const ASerializable* o) {
+  auto t = dynamic_cast<const T*>(o); if (t == nullptr) return "(())";
+  return "(" + sx_s(t->toString()) + ")";
+}
+// reload through the public stream interface (classes without createFromNF)
+template <class T> static ASerializable* load_stream(const std::string& f, const char* tag) {
+  std::ifstream is(f); if (!is.is_open()) return nullptr;
+  std::string t; is >> t; if (t != tag) return nullptr;
+  T* o = new T(); if (!o->deserialize(is, false)) { delete o; return nullptr; }
+  return o;
+}
+template <class T> static Cls generic(std::function<ASerializable*(const Sx&)> build, std::function<ASerializable*(const std::string&)> load) {
+  Cls c; c.build = build; c.load = load;
+  c.G = [](const ASerializable*) { return std::string("()"); };
+  c.X = [](const ASerializable* o) { return x_text<T>(o); };
+  return c;
+}
+static void more_classes(std::map<int, Cls>& m) {
+  // 20 DbLine: (ndim nbline nperline seed)
+  m[20] = generic<DbLine>([](const Sx& r) -> ASerializable* { return DbLine::createFillRandom((int) r[0].i(), (int) r[1].i(), (int) r[2].i(), 5., VectorDouble(), 0.3, (int) r[3].i()); },
+                          [](const std::string& f) -> ASerializable* { return DbLine::createFromNF(f, false); });
+  // 21 DbGraphO: (nech x1 x2 z arcs((i j v)...))
+  m[21] = generic<DbGraphO>([](const Sx& r) -> ASerializable* {
+      VectorDouble tab = VD(r[1]); for (double v : VD(r[2])) tab.push_back(v); for (double v : VD(r[3])) tab.push_back(v);
+      NF_Triplet arcs; for (auto& a : r[4].l) arcs.add((int) a[0].i(), (int) a[1].i(), a[2].d());
+      return DbGraphO::createFromSamples((int) r[0].i(), ELoadBy::COLUMN, tab, arcs, {"x1", "x2", "z1"}, {"x1", "x2", "z1"}); },
+                            [](const std::string& f) -> ASerializable* { return DbGraphO::createFromNF(f, false); });
+  // 22 AnamEmpirical: (ndisc sigma2e dilution gaussian data)
+  m[22] = generic<AnamEmpirical>([](const Sx& r) -> ASerializable* {
+      AnamEmpirical* a = new AnamEmpirical((int) r[0].i(), r[1].d(TEST), r[2].b(), r[3].b()); a->fitFromArray(VD(r[4])); return a; },
+                                 [](const std::string& f) -> ASerializable* { return AnamEmpirical::createFromNF(f, false); });
+  // 23 AnamDiscreteDD: (mu scoef zcuts stats z2f f2z)   -- filled through the setters (the fit is another matter)
+  m[23] = generic<AnamDiscreteDD>([](const Sx& r) -> ASerializable* {
+      AnamDiscreteDD* a = AnamDiscreteDD::create(r[0].d(), r[1].d()); VectorDouble zc = VD(r[2]); a->setZCut(zc);
+      int n = (int) zc.size(); a->setStats(VD(r[3]));
+      MatrixSquareGeneral A(n), B(n); VectorDouble va = VD(r[4]), vb = VD(r[5]);
+      for (int i = 0; i < n; i++) for (int j = 0; j < n; j++) { A.setValue(i, j, va[i * n + j]); B.setValue(i, j, vb[i * n + j]); }
+      a->setPcaZ2F(A); a->setPcaF2Z(B); return a; },
+                                  [](const std::string& f) -> ASerializable* { return AnamDiscreteDD::createFromNF(f, false); });
+  // 24 AnamDiscreteIR: (rcoef zcuts data)
+  m[24] = generic<AnamDiscreteIR>([](const Sx& r) -> ASerializable* {
+      AnamDiscreteIR* a = AnamDiscreteIR::create(r[0].d()); a->setZCut(VD(r[1])); a->fitFromArray(VD(r[2])); return a; },
+                                  [](const std::string& f) -> ASerializable* { return AnamDiscreteIR::createFromNF(f, false); });
+  // 25 MeshETurbo: (nx dx x0 angles polarized)
+  m[25] = generic<MeshETurbo>([](const Sx& r) -> ASerializable* { space((int) r[0].size()); return MeshETurbo::create(VI(r[0]), VD(r[1]), VD(r[2]), VD(r[3]), r[4].b(), false); },
+                              [](const std::string& f) -> ASerializable* { return MeshETurbo::createFromNF(f, false); });
+  // 26 MeshEStandard: (ndim apices(row-major) meshes(row-major, ndim+1 per mesh))
+  m[26] = generic<MeshEStandard>([](const Sx& r) -> ASerializable* {
+      int ndim = (int) r[0].i(); VectorDouble ap = VD(r[1]); VectorInt me = VI(r[2]);
+      int nap = (int) ap.size() / ndim, nme = (int) me.size() / (ndim + 1);
+      MatrixRectangular A(nap, ndim); for (int i = 0; i < nap; i++) for (int j = 0; j < ndim; j++) A.setValue(i, j, ap[i * ndim + j]);
+      MatrixInt M(nme, ndim + 1); for (int i = 0; i < nme; i++) for (int j = 0; j <= ndim; j++) M.setValue(i, j, me[i * (ndim + 1) + j]);
+      space(ndim);
+      return MeshEStandard::createFromExternal(A, M, false); },
+                                 [](const std::string& f) -> ASerializable* { return MeshEStandard::createFromNF(f, false); });
+  // 27 Rule: (names rho)
+  m[27] = generic<Rule>([](const Sx& r) -> ASerializable* { return Rule::createFromNames(VS(r[0]), r[1].d()); },
+                        [](const std::string& f) -> ASerializable* { return Rule::createFromNF(f, false); });
+  // 28 RuleShift: (names shift)   -- no createFromNF: reloaded through deserialize(std::istream&)
+  m[28] = generic<RuleShift>([](const Sx& r) -> ASerializable* { return RuleShift::createFromNames(VS(r[0]), VD(r[1])); },
+                             [](const std::string& f) -> ASerializable* { return load_stream<RuleShift>(f, "RuleShift"); });
+  // 29 RuleShadow: (slope dsup down shift)
+  m[29] = generic<RuleShadow>([](const Sx& r) -> ASerializable* { return new RuleShadow(r[0].d(), r[1].d(), r[2].d(), VD(r[3])); },
+                              [](const std::string& f) -> ASerializable* { return load_stream<RuleShadow>(f, "RuleShadow"); });
+  // 30 Faults: ((xs ys) ...)
+  m[30] = generic<Faults>([](const Sx& r) -> ASerializable* { Faults* F = new Faults(); for (auto& l : r.l) { PolyLine2D pl(VD(l[0]), VD(l[1])); F->addFault(pl); } return F; },
+                          [](const std::string& f) -> ASerializable* { return Faults::createFromNF(f, false); });
+  // 31 FracEnviron: (xmax ymax deltax deltay mean stdev families((10 doubles)...) faults((coord orient ((thl thr rl rr)...))...))
+  m[31] = generic<FracEnviron>([](const Sx& r) -> ASerializable* {
+      FracEnviron* e = FracEnviron::create(r[0].d(), r[1].d(), r[2].d(), r[3].d(), r[4].d(), r[5].d());
+      for (auto& f : r[6].l) { VectorDouble v = VD(f); e->addFamily(FracFamily(v[0], v[1], v[2], v[3], v[4], v[5], v[6], v[7], v[8], v[9])); }
+      for (auto& f : r[7].l) { FracFault ft(f[0].d(), f[1].d()); for (auto& q : f[2].l) ft.addFaultPerFamily(q[0].d(), q[1].d(), q[2].d(), q[3].d()); e->addFault(ft); }
+      return e; },
+                               [](const std::string& f) -> ASerializable* { return FracEnviron::createFromNF(f, false); });
+  // 32 NeighImage: (ndim radius skip)
+  m[32] = generic<NeighImage>([](const Sx& r) -> ASerializable* { space((int) r[0].i()); return NeighImage::create(VI(r[1]), (int) r[2].i()); },
+                              [](const std::string& f) -> ASerializable* { return NeighImage::createFromNF(f, false); });
+}
+
 static std::map<int, Cls>& classes() {
   static std::map<int, Cls> m;
   if (m.empty()) {
     m[1] = cls_unique(); m[2] = cls_bench(); m[3] = cls_cell(); m[4] = cls_moving(); m[5] = cls_table();
     m[6] = cls_polyline(); m[7] = cls_polyelem(); m[8] = cls_polygons(); m[9] = cls_hermite();
     m[10] = cls_db(); m[11] = cls_dbgrid(); m[12] = cls_vario(); m[13] = cls_model();
+    more_classes(m);
   }
   return m;
 }
